@@ -600,7 +600,7 @@ def c15(ctx):
                 "the computed double agrees to 2^-40 with the library's evaluation of the expression at the binding")
     # (a batch compiles three C files: generous per-case limit on a loaded machine)
     cases = ctx.gen("MC_C15")
-    events = ctx.drive("base", cases, env={"SEV_CASE_TIMEOUT": "300"}, timeout=3000)
+    events = ctx.drive("base", cases, env={"SEV_CASE_TIMEOUT": "300"}, timeout=7200)
     ctx.judge(ctx.validate("Trace_C15", events, floor=0.5), cases)
 
 
@@ -686,7 +686,9 @@ def c14(ctx):
                 "saved / loaded into a fresh object, and all expressions of a batch as the outputs of one function on an "
                 "object that is then initialised again; TLC validates every returned value against the exact value "
                 "(module Dbl) where the specification has one and against the library's own evaluation")
-    simple(ctx, "MC_C14", "Trace_C14", cfg="llvm", floor=0.5)
+    cases = ctx.gen("MC_C14")
+    events = ctx.drive("llvm", cases, env={"SEV_CASE_TIMEOUT": "300"}, timeout=7200)     # (thorough: ~1700 batches)
+    ctx.judge(ctx.validate("Trace_C14", events, floor=0.5), cases)
 
 
 @plan("C41")
